@@ -75,6 +75,19 @@ def run(ck):
     res = ck.run_and_validate(tasks, TRACE)
     res += ck.run_and_validate(large_tasks(rng, quick), TRACE, nontrivial=lambda t, r: True)
     c14.require_complete(ck, res)
+    # directed two-preemption sweeps: two completers finishing at the same instant, and a completer racing a cancel
+    # of the output (line granularity)
+    from .. import core as _core
+    swept = []
+    for op in ['zip', 'sequence']:
+        for kinds in ((1, 2), (2, 1), (3, 1), (1, 1)):
+            params = {"op": op, "inputs": [{"kind": kinds[0], "at": 100}, {"kind": kinds[1], "at": 100}], "cancel_at": 100,
+                      "horizon": 800}
+            swept += _core.phase_tasks("combinators", params,
+                                       [("comp1", "comp2"), ("comp2", "comp1"), ("comp1", "can1"), ("can1", "comp2")],
+                                       range(2, 40, 4 if quick else 1), range(2, 26, 5 if quick else 1),
+                                       facts={"op": op})
+    ck.run_and_validate(swept, TRACE, nontrivial=lambda t, r: True)
     ck.assumptions += [
         "a completion linearises between its InputSetCall and InputSetRet, and for the combinator not before "
         "the combinator was called (already-done inputs count as concurrent with each other)",
